@@ -461,7 +461,7 @@ Run(s, m, f) == LET t == RunT(s, m, f) IN [out |-> Out(t), post |-> Commit(s, t)
 HistInit(s) == [outbox |-> <<>>,      \* [msg, by, type, fresh] per emitted MessageSent, in order
                 recv   |-> <<>>,      \* [key, ok, mod] per receive attempt
                 minted |-> 0, burned |-> 0,
-                start  |-> s.nextNonce, genUsed |-> s.used,
+                steps  |-> 0, start  |-> s.nextNonce, genUsed |-> s.used,
                 supply0 |-> s.supply]
 
 SentOf(o) == SelectSeq(o.evs, LAMBDA e : e.e = "MessageSent")
@@ -484,9 +484,10 @@ HistExtend(h, o) ==
                                                    amt |-> IF m.wire.rcpt = ModulePadded /\ m.wire.body.k = "burn"
                                                            THEN m.wire.body.amt ELSE 0])]
                ELSE h1
+      h3    == [h2 EXCEPT !.steps = @ + 1]
   IN  IF o.res = "ok"
-      THEN [h2 EXCEPT !.minted = @ + SumAmt(o.calls, "Mint"), !.burned = @ + SumAmt(o.calls, "Burn")]
-      ELSE h2
+      THEN [h3 EXCEPT !.minted = @ + SumAmt(o.calls, "Mint"), !.burned = @ + SumAmt(o.calls, "Burn")]
+      ELSE h3
 
 ---------------------------------------------------------------------------
 (* Stepwise actions.                                                        *)
